@@ -359,6 +359,10 @@ func (r *rng) c19Cases(tier string) []c19case {
 					ls[pos].term = "\n"
 				}
 				add(c19case{lines: ls, n: ns[r.intn(3)]})
+				if rep == 0 {
+					// the same stream read from a file (the FileName source has its own goroutine and error path)
+					add(c19case{lines: append([]c19line{}, ls...), n: ns[r.intn(3)], mode: "file"})
+				}
 			}
 		}
 	}
@@ -654,6 +658,7 @@ type c19rt struct {
 	skipGo, skipSys, skipP bool
 	parallel               bool
 	ncoll                  int
+	shapeAt                int // > 0: the custom collector's document gains a field from its shapeAt-th call on ("RS" line)
 }
 
 func c19ID(doc []byte) (int64, bool) {
@@ -690,6 +695,9 @@ func c19RunRuntime(o *out, id int, c c19rt, dir string) error {
 		generated = 0
 		opts.Collectors = metrics.Collectors{{Name: "cnt", Operation: func(context.Context) *birch.Document {
 			generated++
+			if c.shapeAt > 0 && generated >= int64(c.shapeAt) {
+				return birch.NewDocument(birch.EC.Int64("k", generated), birch.EC.Int64("extra", 1))
+			}
 			return birch.NewDocument(birch.EC.Int64("k", generated))
 		}}}
 	}
@@ -718,7 +726,11 @@ func c19RunRuntime(o *out, id int, c c19rt, dir string) error {
 	// the files prefix.0, prefix.1, ... (and nothing else with that prefix)
 	files, _ := filepath.Glob(prefix + ".*")
 	nfiles := len(files)
-	o.printf("RT %d %d %d %d %d %d %d %d %d %d => %d %d %d\n", id, int64(c.flush), int64(c.collect), c.samples,
+	tag := "RT"
+	if c.shapeAt > 0 {
+		tag = "RS" // the sample changes its shape in the middle of a chunk: all samples in order, or a loud failure
+	}
+	o.printf("%s %d %d %d %d %d %d %d %d %d %d => %d %d %d\n", tag, id, int64(c.flush), int64(c.collect), c.samples,
 		b2i(c.skipGo), b2i(c.skipSys), b2i(c.skipP), b2i(c.parallel), c.ncoll, int64(c.cancel), errFlag(err), generated, nfiles)
 	for k := 0; k < nfiles; k++ {
 		fn := fmt.Sprintf("%s.%d", prefix, k)
@@ -796,6 +808,11 @@ func (r *rng) c19Runtimes(tier string) []c19rt {
 			c.collect, c.flush = 3*msd, 3*msd // collection interval equal to the flush interval
 		}
 		cs = append(cs, c)
+	}
+	// a custom collector whose document changes shape inside a chunk (not at a chunk boundary)
+	for _, at := range []int{3, 7, 14} {
+		cs = append(cs, c19rt{flush: 60 * msd, collect: msd, cancel: 40 * msd, samples: 10, skipSys: true, skipP: true,
+			ncoll: 1, shapeAt: at})
 	}
 	return cs
 }
